@@ -466,8 +466,11 @@ func (*Ufs) Read(req *SrvReq) {
 		}
 
 		switch {
-		case tc.Offset > uint64(len(fid.dirents)):
-			count = 0
+		case tc.Offset >= uint64(len(fid.dirents)):
+			/* at or past the end of the directory */
+			SetRreadCount(rc, 0)
+			req.Respond()
+			return
 		case len(fid.dirents[tc.Offset:]) > int(tc.Count):
 			count = int(tc.Count)
 		default:
@@ -478,7 +481,7 @@ func (*Ufs) Read(req *SrvReq) {
 			nextend := sort.SearchInts(fid.direntends, int(tc.Offset)+count)
 			if nextend < len(fid.direntends) {
 				if fid.direntends[nextend] > int(tc.Offset)+count {
-					if nextend > 0 {
+					if nextend > 0 && fid.direntends[nextend-1] > int(tc.Offset) {
 						count = fid.direntends[nextend-1] - int(tc.Offset)
 					} else {
 						count = 0
